@@ -1,7 +1,9 @@
 #!/bin/bash
-# usage: mutant.sh <seed id> <check id> [tier]   -- apply seeded patch to /repo, run a check, revert
+# usage: mutant.sh <seed id> <check id> [tier]   -- apply seeded patch to /repo, run a check, revert; the evidence file is preserved
 cd /verif
-git -C /repo apply /verif/seeded/$1/patch.diff || exit 9
+cp evidence/$2.json /tmp/evidence_$2.bak 2>/dev/null
+git -C /repo apply /verif/seeded/$1/patch.diff 2>/dev/null || exit 9
 ./check $2 --tier ${3:-quick} > /tmp/mutant_$1_$2.log 2>&1; rc=$?
-git -C /repo checkout -- . 
-echo "seed=$1 check=$2 exit=$rc"; grep -c "^VIOLATION" /tmp/mutant_$1_$2.log; grep "^VIOLATION" /tmp/mutant_$1_$2.log | head -3; tail -1 /tmp/mutant_$1_$2.log
+git -C /repo checkout -- .
+cp /tmp/evidence_$2.bak evidence/$2.json 2>/dev/null
+echo "seed=$1 check=$2 exit=$rc violations=$(grep -c '^VIOLATION' /tmp/mutant_$1_$2.log) with-failing-input=$(grep '^VIOLATION' /tmp/mutant_$1_$2.log | grep -vc no-failing)"
